@@ -15,6 +15,7 @@ from fractions import Fraction
 
 from .index import AnalysisError, ClassInfo, dotted
 from .lin import Lin, Facts, as_lin
+from . import astq
 
 
 # ---------------------------------------------------------------------------- values
@@ -456,6 +457,9 @@ class Interp:
         if isinstance(node, ast.For):
             return self._for(node, st, frame)
         if isinstance(node, ast.While):
+            as_for = self._while_as_for(node, st, frame) if getattr(self, "index_loops", False) else None
+            if as_for is not None:
+                return self._for(as_for, st, frame)
             # loop-carried state is not tracked: everything assigned in the body becomes opaque
             self._havoc(node.body, st)
             return [(st, ("fall",))]
@@ -525,6 +529,51 @@ class Interp:
             return
         st.yields.append(YieldRec(v, st.facts.copy(), list(st.loops), node, frame.func))
 
+    def _while_as_for(self, node, st, frame):
+        """``i = 0; while i < n: ...seq[i]...; i += 1`` with ``n = len(seq)`` (and no other store to ``i``, no break/continue,
+        no else) is the index loop ``for i in range(len(seq))``: returns that ``For`` node, else None."""
+        t = node.test
+        if node.orelse or not (isinstance(t, ast.Compare) and len(t.ops) == 1 and isinstance(t.ops[0], ast.Lt) and isinstance(t.left, ast.Name)):
+            return None
+        i = t.left.id
+        v0 = st.env.get(i)
+        if not (isinstance(v0, Lin) and v0.is_const() and v0.const == 0):
+            return None
+        bound = t.comparators[0]
+        seq = None
+        if isinstance(bound, ast.Call) and dotted(bound.func) == "len" and len(bound.args) == 1:
+            seq = bound.args[0]
+        elif isinstance(bound, ast.Name):
+            vals = astq.assigned_values(frame.func, bound.id)
+            if len(vals) == 1 and isinstance(vals[0], ast.Call) and dotted(vals[0].func) == "len" and len(vals[0].args) == 1:
+                seq = vals[0].args[0]
+        if seq is None:
+            return None
+        incs, body = [], []
+        for b in node.body:
+            if isinstance(b, ast.AugAssign) and isinstance(b.target, ast.Name) and b.target.id == i and isinstance(b.op, ast.Add) \
+                    and isinstance(b.value, ast.Constant) and b.value.value == 1:
+                incs.append(b)
+            else:
+                body.append(b)
+        if len(incs) != 1:
+            return None
+        for b in body:
+            for x in ast.walk(b):
+                if isinstance(x, (ast.Break, ast.Continue)):
+                    return None
+                if isinstance(x, ast.Name) and x.id == i and isinstance(x.ctx, ast.Store):
+                    return None
+        # statements after the increment must not read the counter (they would see i + 1)
+        after = node.body[node.body.index(incs[0]) + 1:]
+        if any(isinstance(x, ast.Name) and x.id == i for b in after for x in ast.walk(b)):
+            return None
+        f = ast.For(target=ast.Name(id=i, ctx=ast.Store()),
+                    iter=ast.Call(func=ast.Name(id="range", ctx=ast.Load()), args=[ast.Call(func=ast.Name(id="len", ctx=ast.Load()), args=[seq], keywords=[])],
+                                  keywords=[]), body=body or [ast.Pass()], orelse=[])
+        ast.copy_location(f, node)
+        return ast.fix_missing_locations(f)
+
     def _for(self, node, st, frame):
         it = self.ev(node.iter, st, frame)
         results = []
@@ -552,12 +601,12 @@ class Interp:
         tname = dotted(node.target) or "it"
         index_of = None
         ni = node.iter
-        if getattr(self, "index_loops", False) and isinstance(it, Rng) and isinstance(node.target, ast.Name) and isinstance(ni, ast.Call) \
+        if getattr(self, "index_loops", False) and isinstance(it, (Rng, Opq)) and isinstance(node.target, ast.Name) and isinstance(ni, ast.Call) \
                 and dotted(ni.func) == "range" \
                 and len(ni.args) == 1 and not ni.keywords and isinstance(ni.args[0], ast.Call) and dotted(ni.args[0].func) == "len" \
                 and len(ni.args[0].args) == 1:
             seq = self.ev(ni.args[0].args[0], st, frame)
-            if isinstance(seq, (Vec, FHV)) and not any(
+            if isinstance(seq, (Vec, FHV, Rng)) and not any(
                     isinstance(x, (ast.Assign, ast.AugAssign)) and any(isinstance(t, ast.Name) and t.id == node.target.id
                                                                      for t in ast.walk(x) if isinstance(getattr(t, "ctx", None), ast.Store))
                     for b in node.body for x in ast.walk(b)):
@@ -587,7 +636,7 @@ class Interp:
                 body_st.facts.add_cmp(Lin.sym(vec.base + "[0]"), "<=", var, "first of sorted vector <= element")
         body_st.loops = list(st.loops) + [LoopCtx(var, it, node)]
         if index_of is not None:
-            elem = IdxV(it if isinstance(it, Vec) else it.vec, elem)
+            elem = IdxV(it if isinstance(it, (Vec, Rng)) else it.vec, elem)
         self.assign(node.target, elem, body_st, frame)
         after = st.copy()
         self._havoc(node.body, after)
@@ -1025,6 +1074,9 @@ class Interp:
                 return Opq("slice-step", [base])
             return self.slice(base, lo, hi, st)
         idx = self.ev(sl, st, frame)
+        if isinstance(idx, BExp):
+            # a mask bound to a local first (`m = index < lo; index[m]`): read through to the defining comparison
+            idx = self.ev(idx.node, st, frame)
         return self.index(base, idx, e, st, frame)
 
     def slice(self, base, lo, hi, st):
@@ -1047,6 +1099,10 @@ class Interp:
         else:
             base_v = base
         if isinstance(idx, IdxV):
+            if isinstance(base_v, Rng) and isinstance(idx.vec, Rng):
+                return idx.elem if base_v == idx.vec else Opq("elem", [base_v])
+            if isinstance(idx.vec, Rng):
+                return Opq("elem", [base_v])
             if isinstance(base_v, Vec) and base_v.base == idx.vec.base and base_v.neg == idx.vec.neg:
                 return idx.elem - idx.vec.off + base_v.off if isinstance(idx.elem, Lin) else idx.elem
             return Opq("elem", [base_v])
@@ -1171,6 +1227,13 @@ class Interp:
             return args[0] if not isinstance(args[0], Tup) else Opq("array", args)
         if ext == "builtins.hasattr" and len(args) == 2 and isinstance(args[0], SelfV) and isinstance(args[1], K):
             return K(self.has_attr(args[0].cls, args[1].v))
+        if ext == "builtins.getattr" and len(args) in (2, 3) and isinstance(args[0], SelfV) and isinstance(args[1], K) and isinstance(args[1].v, str):
+            # getattr(self, "name"[, default]): the attribute when the class (or this object) has it, else the default
+            nm = args[1].v
+            if (id(args[0]), nm) in st.heap or nm in args[0].attrs or self.has_attr(args[0].cls, nm):
+                return self.getattr(args[0], nm, e, st, frame)
+            if len(args) == 3:
+                return args[2]
         if ext == "builtins.isinstance":
             return Opq("isinstance", args)
         # methods on abstract values
